@@ -281,7 +281,28 @@ for _n in (0, 1, 2):
   _mk_features_reply(_n)
 
 
-def _mk_queue_reply(nqueues, nprops):
+def _queue_prop(b, kind, prefix):
+  """one queue property + the bytes the specification prescribes: "min" = OFPQT_MIN_RATE (16 bytes), "none" = OFPQT_NONE
+  (8 bytes: header + 4 pad bytes, which pox keeps as data), "other" = a property type pox has no class for (generic)"""
+  if kind == "min":
+    return build_obj(b, "ofp_queue_prop_min_rate", prefix, 1)
+  table = TABLES["ofp_queue_prop_generic"]
+  if kind == "none":
+    o = b.new(of.ofp_queue_prop_none)
+    prop = 0
+    n = 4
+    data = b.bytes(prefix + "data", n)
+  else:
+    o = b.new(of.ofp_queue_prop_generic)
+    prop = b.int(prefix + "property", 2, 0xffff)
+    n = 12
+    data = b.bytes(prefix + "data", n)
+  b.set(o, "property", prop)
+  b.set(o, "data", data)
+  return o, {"property": prop, "data": data}, 4 + n, table, None
+
+
+def _mk_queue_reply(nqueues, nprops, kinds=None):
   def u(b):
     o = b.new(of.ofp_queue_get_config_reply)
     vals = {}
@@ -292,12 +313,12 @@ def _mk_queue_reply(nqueues, nprops):
       q = b.new(of.ofp_packet_queue)
       qv = {}
       set_scalars(b, q, TABLES["ofp_packet_queue"], "q%d." % qi, qv)
-      props = [build_obj(b, "ofp_queue_prop_min_rate", "q%d.p%d." % (qi, pi), 1) for pi in range(nprops)]
+      props = [_queue_prop(b, (kinds or ["min"] * nprops)[pi], "q%d.p%d." % (qi, pi)) for pi in range(nprops)]
       b.set(q, "properties", b.list([p[0] for p in props]))
       queues.append((qv, props))
       qobjs.append(q)
     b.set(o, "queues", b.list(qobjs))
-    qlen = 8 + 16 * nprops
+    qlen = 8 + sum([{"min": 16, "none": 8, "other": 16}[x] for x in (kinds or ["min"] * nprops)])
     total = 16 + nqueues * qlen
     return Case(_rt_message, [o], ensures={
       "layout": lambda res: res[0] == layout(
@@ -310,12 +331,16 @@ def _mk_queue_reply(nqueues, nprops):
       "re_encode": lambda res: res[4] == res[0],
     })
   unit(P, target=MOD + "ofp_queue_get_config_reply/ofp_packet_queue/_unpack_queue_props",
-       name="ofp_queue_get_config_reply_%dq%dp" % (nqueues, nprops))(u)
+       name="ofp_queue_get_config_reply_%dq%dp%s" % (nqueues, nprops, "_" + "_".join(kinds) if kinds else ""))(u)
   u.bound = LISTS
 
 
 for _q, _p in ((0, 0), (1, 0), (1, 2), (2, 1)):
   _mk_queue_reply(_q, _p)
+# property lists ending in an 8-byte property / a property type without a class of its own
+_mk_queue_reply(1, 1, ["none"])
+_mk_queue_reply(2, 2, ["min", "none"])
+_mk_queue_reply(1, 2, ["other", "min"])
 
 
 # ---------------------------------------------------------------- vendor action, description statistics
